@@ -245,5 +245,8 @@ func GenConfig(r *rand.Rand, profile string) Config {
 	}
 	c.WithPrices = r.Intn(5) != 0
 	c.UserFunds = pick(r, []string{"1000000000000000000000", "1000000000000000000000000", "1000"})
+	if r.Intn(8) == 0 {
+		c.UserFunds = "1393796574908163946345982392040522594123776" // 2^140: fees and amounts beyond 2^128 become affordable
+	}
 	return c
 }
